@@ -488,6 +488,84 @@ def rule_r9(ctx) -> RuleResult:
     return rr
 
 
+def rule_r10(ctx) -> RuleResult:
+    """The marking and the redirect propagation test the flag in SQL (`need_pre_expand = 1`, `pages.need_pre_expand = 0`).  In SQL
+    a NULL is neither: a row whose flag is NULL is never "not marked yet", so the propagation skips it for ever.  Hence no path
+    may hand None to the column.  Followed backwards from add_page's parameter through same-named parameters of wrappers to
+    the expressions at the outermost call sites; `d.get(key)` without a default is None for a missing key (seed C17-9A: the
+    JSON override reader dropped the `False` default)."""
+    rr = RuleResult("C17.R10", "the need_pre_expand column never receives NULL", min_instances=2)
+    funcs = {}
+    for dotted, m, f in ctx.index.all_functions():
+        funcs.setdefault(f.name, []).append((dotted, m, f))
+    seen, work = set(), [("add_page", "need_pre_expand")]
+    while work:
+        fname, param = work.pop()
+        if (fname, param) in seen:
+            continue
+        seen.add((fname, param))
+        targets = funcs.get(fname, [])
+        if not targets:
+            continue
+        tf = targets[0][2]
+        names = [a.arg for a in tf.args.args]
+        if names and names[0] in ("self", "cls"):
+            names = names[1:]
+        pos = names.index(param) if param in names else None
+        dflt = None
+        allargs = tf.args.args
+        if param in [a.arg for a in allargs]:
+            k = [a.arg for a in allargs].index(param) - (len(allargs) - len(tf.args.defaults))
+            if k >= 0:
+                dflt = tf.args.defaults[k]
+        if isinstance(dflt, ast.Constant) and dflt.value is None:
+            rr.bad(Finding("C17.R10", targets[0][1].relpath, targets[0][0], "{}=None".format(param),
+                           "the default of `{}` is None: a caller that omits it stores NULL".format(param), tf.lineno))
+        for dotted, m, f in ctx.index.all_functions():
+            for c in walk_no_nested(f):
+                if not (isinstance(c, ast.Call) and ((isinstance(c.func, ast.Attribute) and c.func.attr == fname) or (isinstance(c.func, ast.Name) and c.func.id == fname))):
+                    continue
+                e = next((k.value for k in c.keywords if k.arg == param), None)
+                if e is None and pos is not None and len(c.args) > pos and not any(isinstance(a, ast.Starred) for a in c.args):
+                    e = c.args[pos]
+                if e is None:
+                    continue   # omitted: the default applies (checked above)
+                ctx.touched(dotted, m.relpath)
+                label = "{}({}={})".format(fname, param, unparse(e)[:40])
+
+                def classify(x):
+                    if isinstance(x, ast.Constant):
+                        return "none" if x.value is None else "ok"
+                    if isinstance(x, (ast.Compare, ast.BoolOp)) or (isinstance(x, ast.UnaryOp) and isinstance(x.op, ast.Not)):
+                        return "ok"
+                    if isinstance(x, ast.Call) and unparse(x.func) in ("bool", "int"):
+                        return "ok"
+                    if isinstance(x, ast.Call) and isinstance(x.func, ast.Attribute) and x.func.attr == "get":
+                        if len(x.args) == 1 and not x.keywords:
+                            return "none"
+                        if len(x.args) == 2:
+                            return classify(x.args[1])
+                    if isinstance(x, ast.IfExp):
+                        a, b = classify(x.body), classify(x.orelse)
+                        return "none" if "none" in (a, b) else ("ok" if a == b == "ok" else "unknown")
+                    if isinstance(x, ast.Name) and x.id in [a.arg for a in f.args.args + f.args.kwonlyargs]:
+                        return "param"
+                    return "unknown"
+
+                k = classify(e)
+                if k == "none":
+                    rr.bad(Finding("C17.R10", m.relpath, dotted, label,
+                                   "this expression is None when the key is missing / on this path, and it reaches the need_pre_expand column: the "
+                                   "row's flag is NULL, which `need_pre_expand = 0` never matches, so the redirect propagation never marks the page",
+                                   c.lineno))
+                elif k == "param":
+                    work.append((f.name, e.id))
+                    rr.ok(dotted, label + " (forwarded parameter)")
+                else:
+                    rr.ok(dotted, label + (" (not None)" if k == "ok" else " (unclassified)"), {"site": label, "kind": k})
+    return rr
+
+
 def run(ctx) -> list:
     from ..core.report import shared
     from . import c10
@@ -497,4 +575,4 @@ def run(ctx) -> list:
                 "a later analysis on the same context skips templates it wrongly believes to be marked", min_instances=3)
     r7 = shared(c10.rule_r11(ctx, sf), "C17.R7", "the work list finds every stored template by its stored title (shared with C10.R11)",
                 "a template whose stored title the reader-side normalisation changes is never reached by the propagation", min_instances=1)
-    return [rule_r1(ctx), rule_r2(ctx), rule_r3(ctx, sf), rule_r4(ctx, sf), rule_r5(ctx, sf), r6, r7, rule_r8(ctx), rule_r9(ctx)]
+    return [rule_r1(ctx), rule_r2(ctx), rule_r3(ctx, sf), rule_r4(ctx, sf), rule_r5(ctx, sf), r6, r7, rule_r8(ctx), rule_r9(ctx), rule_r10(ctx)]
